@@ -34,12 +34,12 @@ picks = [
  ("w_alias_keyword", first(lambda c: c["kind"] == "alias" and c["meta"]["alias"] == "select")),
  ("w_alias_dquote", first(lambda c: c["kind"] == "alias" and c["meta"]["alias"] == 'a"b')),
  ("w_alias_space", first(lambda c: c["kind"] == "alias" and c["meta"]["alias"] == 'a b')),
+ ("w_K6_json_default", first(lambda c: c["kind"] == "directed-json-default-old-row")),
  ("w_search_plain", first(lambda c: c["kind"] == "search" and c["meta"]["term"] == "hello")),
 ]
-# open classes 5 (the term reaches FTS5 as a query expression) and 6 (Json default returned as a string)
+# open class 5 (the term reaches FTS5 as a query expression)
 refuted = [
  ("w_K5_search_quote", first(lambda c: c["kind"] == "search" and c["meta"]["term"] == 'hello"'), "[5]"),
- ("w_K6_json_default", first(lambda c: c["kind"] == "directed-json-default-old-row"), "[6]"),
  ("w_K5_search_column", first(lambda c: c["kind"] == "search" and c["meta"]["term"] == 'name:hello'), "[5]"),
 ]
 out = ["(* C04Wit.v — closed witnesses: directed cases of harness/src/bin/c04.rs as Gallina terms, the model's verdict",
